@@ -165,6 +165,9 @@ func enumOracle(root *packages.Package, tbl map[*types.Named]*analysis.Enum) []o
 			if !ok || strings.Contains(constComment(p, c), "gomacro:no-enum") {
 				continue
 			}
+			if n.Obj().Pkg() != p.Types {
+				continue // "its package declares": a constant declared elsewhere is not a member
+			}
 			byType[n] = append(byType[n], c)
 		}
 		for n, cs := range byType {
